@@ -223,6 +223,25 @@ class NPW:
     def abs(self, a):
         return _ew(_abs1)(a)
 
+    def round(self, a, decimals=0, out=None):
+        if has_sym(a):
+            f = lambda x: round(x, decimals) if is_sym(x) else float(np.round(x, decimals))  # noqa: E731
+            r = _ew(f)(a)
+            return _ew(lambda x: SR(lift(x)) if isinstance(x, SI) else x)(r) if decimals == 0 else r
+        return np.round(a, decimals)
+
+    around = round
+
+    def floor(self, a):
+        if has_sym(a):
+            return _ew(lambda x: SR(lift(x.floor())) if isinstance(x, SR) else (x if is_sym(x) else float(np.floor(x))))(a)
+        return np.floor(a)
+
+    def ceil(self, a):
+        if has_sym(a):
+            return _ew(lambda x: SR(lift(x.ceil())) if isinstance(x, SR) else (x if is_sym(x) else float(np.ceil(x))))(a)
+        return np.ceil(a)
+
     def exp(self, a):
         return _ew(_exp1)(a)
 
